@@ -93,9 +93,9 @@ theorem positionOfIn_lt : ∀ (parts : List (List Nat)) (i : Nat),
 
 /-! ## The longest-prefix loop -/
 
-/-- `parts[..k]` flattened is a key of the scope. -/
+/-- the `Name::new` text of `parts[..k]` is a key of the scope. -/
 def isKeyAt (keys : List (List Nat)) (parts : List (List Nat)) (k : Nat) : Bool :=
-  keys.contains (flattenNameParts (parts.take k))
+  keys.contains (nameNew (parts.take k))
 
 /-- No prefix of length `1..n` is a key: the loop falls through. -/
 theorem prefixLoop_none (keys : List (List Nat)) (parts : List (List Nat)) (positions : List Nat) :
@@ -155,7 +155,7 @@ theorem prefixLoop_no_panic (keys : List (List Nat)) (parts : List (List Nat)) (
     have h1 : ¬ parts.length < m + 1 := by omega
     rw [if_neg h1] at h
     have hlt : m < positions.length := by omega
-    by_cases hk : keys.contains (flattenNameParts (parts.take (m + 1))) = true
+    by_cases hk : keys.contains (nameNew (parts.take (m + 1))) = true
     · simp only [hk, if_true, List.getElem?_eq_getElem hlt] at h
       cases h
     · simp only [hk] at h
